@@ -88,6 +88,7 @@ class Interp:
         self.trace_calls = []
         self.max_unroll = 64
         self.allocs = []
+        self.scratch = {}  # per-path storage for contracts (loop specs capture locals here)
 
     # ================================================================== names
     def module_env(self, mi):
@@ -103,6 +104,8 @@ class Interp:
             return r
         v = self.lib.lookup(dotted)
         if v is not UNDEF:
+            if isinstance(v, str) and v == "PI_MARKER":
+                return Sym(mathfn.pi(self.cx))
             return v
         return ModuleRef(dotted)
 
